@@ -169,6 +169,15 @@ type Case struct {
 	Toks [][]string `json:"toks"`
 	// PayTokDiff: first difference between the token streams jx and fastjson (the read side's parser) read from a STORED Zipkin payload
 	PayTokDiff string `json:"pay_tok_diff,omitempty"`
+	// JSONRead: OTLP: the stored span of every row re-written in the legacy JSON payload form (the JS writer's: base64 ids, decimal-string
+	// times and integers, camelCase names) and read through OutputQuery (parseOTLPJson); JSONDiff: first difference from the read-back of the
+	// protobuf form of the same span ("" = none; rows whose span has a non-scalar or missing attribute value are skipped: JSONSkipped)
+	JSONDiff    string `json:"json_diff,omitempty"`
+	// JSONKnown: the recorded divergences of the legacy JSON path that were observed (finding otlp-json-legacy-divergences): "dupkey" a repeated
+	// attribute key loses its value, "svcname" service.name / remoteService.name are recomputed, "time63" a time of 2^63 ns or more is clipped
+	JSONKnown []string `json:"json_known,omitempty"`
+	JSONRows    int    `json:"json_rows"`
+	JSONSkipped int    `json:"json_skipped"`
 	// PayTokSurrogate: every such difference is a string in which fastjson kept a lone \uD800-\uDFFF escape as text where jx decoded U+FFFD
 	PayTokSurrogate bool `json:"pay_tok_surrogate,omitempty"`
 	// delivery of the request body to the parser: 0 = one io.Reader over the whole body, 1 = one byte per Read,
@@ -877,6 +886,111 @@ func (cs colset) i64(name string, i int) int64 {
 	panic(fmt.Sprintf("column %s is not an integer column: %T", name, cs[name]))
 }
 
+// ---- the legacy JSON form of an OTLP payload
+func scalarAttrs(kvs []*common.KeyValue) bool {
+	for _, kv := range kvs {
+		if kv.Value == nil {
+			return false
+		}
+		switch kv.Value.Value.(type) {
+		case *common.AnyValue_StringValue, *common.AnyValue_IntValue, *common.AnyValue_BoolValue, *common.AnyValue_DoubleValue:
+		default:
+			return false
+		}
+	}
+	return true
+}
+
+func jsonAttrs(kvs []*common.KeyValue) []any {
+	out := []any{}
+	for _, kv := range kvs {
+		v := map[string]any{}
+		switch x := kv.Value.Value.(type) {
+		case *common.AnyValue_StringValue:
+			v["stringValue"] = x.StringValue
+		case *common.AnyValue_IntValue:
+			v["intValue"] = strconv.FormatInt(x.IntValue, 10)
+		case *common.AnyValue_BoolValue:
+			v["boolValue"] = x.BoolValue
+		case *common.AnyValue_DoubleValue:
+			v["doubleValue"] = x.DoubleValue
+		}
+		out = append(out, map[string]any{"key": kv.Key, "value": v})
+	}
+	return out
+}
+
+// legacyJSON: the span as the JS writer stored it (protobufjs toObject with longs as strings, bytes as base64, enums as numbers)
+func legacyJSON(sp *trace.Span) (string, bool) {
+	if !scalarAttrs(sp.Attributes) {
+		return "", false
+	}
+	o := map[string]any{"traceId": base64.StdEncoding.EncodeToString(sp.TraceId), "spanId": base64.StdEncoding.EncodeToString(sp.SpanId),
+		"name": sp.Name, "kind": int32(sp.Kind), "startTimeUnixNano": strconv.FormatUint(sp.StartTimeUnixNano, 10),
+		"endTimeUnixNano": strconv.FormatUint(sp.EndTimeUnixNano, 10), "attributes": jsonAttrs(sp.Attributes), "droppedAttributesCount": 0}
+	if len(sp.ParentSpanId) > 0 {
+		o["parentSpanId"] = base64.StdEncoding.EncodeToString(sp.ParentSpanId)
+	}
+	evs := []any{}
+	for _, e := range sp.Events {
+		if !scalarAttrs(e.Attributes) {
+			return "", false
+		}
+		evs = append(evs, map[string]any{"timeUnixNano": strconv.FormatUint(e.TimeUnixNano, 10), "name": e.Name, "attributes": jsonAttrs(e.Attributes)})
+	}
+	o["events"] = evs
+	if sp.Status != nil {
+		o["status"] = map[string]any{"code": int32(sp.Status.Code), "message": sp.Status.Message}
+	}
+	b, err := json.Marshal(o)
+	if err != nil {
+		return "", false
+	}
+	return string(b), true
+}
+
+func dupKeys(kvs []*common.KeyValue) bool {
+	seen := map[string]bool{}
+	for _, kv := range kvs {
+		if seen[kv.Key] {
+			return true
+		}
+		seen[kv.Key] = true
+	}
+	return false
+}
+
+// coreOf: the read-back span without what the legacy JSON path recomputes (the service names)
+func coreOf(x RSpan) RSpan {
+	y := x
+	y.Svc = ""
+	y.Attrs = nil
+	for _, kv := range x.Attrs {
+		if kv.K != "service.name" && kv.K != "remoteService.name" {
+			y.Attrs = append(y.Attrs, kv)
+		}
+	}
+	return y
+}
+
+func addKnown(c *Case, k string) {
+	for _, x := range c.JSONKnown {
+		if x == k {
+			return
+		}
+	}
+	c.JSONKnown = append(c.JSONKnown, k)
+}
+
+func rspanDiff(a, b RSpan) string {
+	x, _ := json.Marshal(a)
+	y, _ := json.Marshal(b)
+	if string(x) == string(y) {
+		return ""
+	}
+	return fmt.Sprintf("protobuf form reads %s, JSON form reads %s", x, y)
+}
+
 func run(c *Case, silence bool) {
 	var body []byte
 	var texts []string
@@ -895,6 +1009,7 @@ func run(c *Case, silence bool) {
 		panic("fmt " + c.Fmt)
 	}
 	c.Err, c.ErrMsg, c.Spans, c.Tags, c.Read, c.ReadAll, c.Panic, c.RetryDiff = false, "", []TRow{}, []ARow{}, []RSpan{}, 0, "", ""
+	c.JSONDiff, c.JSONRows, c.JSONSkipped, c.JSONKnown = "", 0, 0, nil
 	// the parser gets its own copy of the body (what it retains must not alias our buffers) delivered in segments
 	sr := &segReader{b: append([]byte{}, body...), r: hx.Rand(c.SegSeed), mode: c.SegMode}
 	err, spans, tags, resp := collect(parser(context.Background(), sr, nil))
@@ -1002,6 +1117,44 @@ func run(c *Case, silence bool) {
 				sort.SliceStable(x.Attrs, func(a, b int) bool { return x.Attrs[a].K < x.Attrs[b].K })
 			}
 			c.Read = append(c.Read, x)
+			// the same stored span in the legacy JSON payload form must read back the same
+			if c.Fmt == "otlp" && r[5].(int64) == 2 {
+				sp := &trace.Span{}
+				if proto.Unmarshal([]byte(r[6].(string)), sp) == nil {
+					if js, ok := legacyJSON(sp); ok {
+						c.JSONRows++
+						r2 := append([]driver.Value{}, r...)
+						r2[6] = js
+						out2, _ := readRows([][]driver.Value{r2})
+						y := RSpan{Ok: false}
+						if len(out2) == 1 {
+							y = out2[0]
+							sort.SliceStable(y.Attrs, func(a, b int) bool { return y.Attrs[a].K < y.Attrs[b].K })
+						}
+						full := rspanDiff(x, y)
+						switch {
+						case full == "":
+						case dupKeys(sp.Attributes):
+							addKnown(c, "dupkey")
+						case sp.StartTimeUnixNano >= 1<<63 || sp.EndTimeUnixNano >= 1<<63:
+							addKnown(c, "time63")
+						default:
+							if d := rspanDiff(coreOf(x), coreOf(y)); d != "" {
+								if c.JSONDiff == "" {
+									c.JSONDiff = fmt.Sprintf("row %d: %s", len(c.Read)-1, d)
+									if len(c.JSONDiff) > 1500 {
+										c.JSONDiff = c.JSONDiff[:1500]
+									}
+								}
+							} else {
+								addKnown(c, "svcname")
+							}
+						}
+					} else {
+						c.JSONSkipped++
+					}
+				}
+			}
 		} else {
 			c.Read = append(c.Read, RSpan{Ok: false})
 		}
